@@ -43,6 +43,11 @@ type spec struct {
 	Cands   []cand
 	// WatchdogS overrides the default hang watchdog (seconds) when larger (os/rpm carries its own 5 min timeout).
 	WatchdogS int
+	// Early: schedule this extractor's units first (work order only). os/macapps has an open finding whose
+	// mutant needs ~90-120 s to run into the memory limits; started last it would be the tail of the run.
+	Early bool
+	// ExtraSeeds are inline minimal valid documents ("i:<name>") added to the extractor's own seeds.
+	ExtraSeeds []string
 }
 
 const (
@@ -145,7 +150,7 @@ var specs = map[string]spec{
 	"wordpress/plugins": one("var/www/html/wp-content/plugins/p/p.php"),
 	"os/apk":            osFamily("lib/apk/db/installed", "testdata/single", false, 0),
 	"os/cos":            osFamily("etc/cos-package-info.json", "testdata/single.json", false, 0),
-	"os/dpkg": {Cands: []cand{
+	"os/dpkg": {ExtraSeeds: []string{"dpkg-status"}, Cands: []cand{
 		{Path: "var/lib/dpkg/status"}, {Path: "var/lib/dpkg/status.d/pkg"}, {Path: "usr/lib/opkg/status"},
 		{Path: "var/lib/dpkg/status", MutPath: "etc/os-release", Primary: "i:dpkg-status", Seeds: "osrelease"},
 		{Path: "var/lib/dpkg/status", MutPath: "usr/lib/os-release", Primary: "i:dpkg-status", Seeds: "osrelease", NoOSRelease: true},
@@ -154,7 +159,7 @@ var specs = map[string]spec{
 	"os/homebrew":       many("usr/local/Cellar/app/1.0/INSTALL_RECEIPT.json", "usr/local/Caskroom/app/1.0/app.wrapper.sh"),
 	"os/kernel/module":  osFamily("lib/modules/6.1.0/kernel/drivers/x/x.ko", "testdata/valid", false, 0),
 	"os/kernel/vmlinuz": osFamily("boot/vmlinuz-6.1.0", "testdata/invalid", false, 0),
-	"os/macapps":        one("Applications/X.app/Contents/Info.plist"),
+	"os/macapps":        {Early: true, Cands: []cand{{Path: "Applications/X.app/Contents/Info.plist"}}},
 	"os/nix":            osFamily("nix/store/1ddf3x30m0z6kknmrmapsc7liz8npi1w-perl-5.38.2/bin/ptar", "i:one-byte", false, 0),
 	"os/pacman":         osFamily("var/lib/pacman/local/pkg-1.0-1/desc", "testdata/valid", false, 0),
 	"os/portage":        osFamily("var/db/pkg/cat/pkg-1.0/PF", "testdata/valid", false, 0),
